@@ -274,8 +274,35 @@ func drive(args []string) int {
 	}
 	wg.Wait()
 
-	// optional second pass on a 32-bit build (the int / uint readers have code that only runs there)
+	// every other check (except the race build and the allocation measurements) runs ONE of its
+	// shards once more on the 32-bit build: a sample, not a second pass, but enough to notice code
+	// that only works where uint is 64 bits wide (seeded change C02r8-m2: bit-set tables built with
+	// 1 << (c & 63) on a uint)
 	note386 := ""
+	if spec.Extra386Shards == 0 && !spec.No386Sample && spec.Binary == "" {
+		bin386 := filepath.Join(*bindir, "vcheck-386")
+		if _, err := os.Stat(bin386); err != nil {
+			note386 = "sampled 32-bit pass not run: no GOARCH=386 build of the checker"
+		} else if out, err := exec.Command(bin386, "list").CombinedOutput(); err != nil {
+			note386 = "sampled 32-bit pass not run: the GOARCH=386 build does not execute here (" + err.Error() + " " + strings.TrimSpace(string(out)) + ")"
+		} else {
+			runDir386 := filepath.Join(runDir, "386")
+			os.MkdirAll(runDir386, 0o755)
+			pick := int((seed*5 + 3) % int64(nshards))
+			if pick < 0 {
+				pick = -pick
+			}
+			r := runShard(bin386, spec, *prop, *tier, seed, pick, nshards, runDir386, timeout)
+			var n386 int64
+			if r.rep != nil {
+				n386 = r.rep.Evaluations
+			}
+			r.shard += 1000
+			results = append(results, r)
+			note386 = fmt.Sprintf("sampled 32-bit pass: shard %d of %d once more on a GOARCH=386 build of checker and library, %d monitored executions (included in the totals)", pick, nshards, n386)
+		}
+		fmt.Println(note386)
+	}
 	if spec.Extra386Shards > 0 {
 		bin386 := filepath.Join(*bindir, "vcheck-386")
 		runDir386 := filepath.Join(runDir, "386")
